@@ -24,6 +24,19 @@ var fmtTuples = []model.Fmt4{
 	{LastDirect: "", LastIndirect: "xx", MidDirect: "├──", MidIndirect: ""},
 }
 
+// fmtOrderTuples: which of the two branch-format options are given, and in which order (each option concerns its own
+// pair only; a pair that is not given keeps the default; an option given twice takes the later value). Continuation
+// strings of unequal widths, so that a pair leaking into the other one shows.
+var fmtOrderTuples = []model.Fmt4{
+	{LastDirect: "`--", LastIndirect: "..", MidDirect: "+--", MidIndirect: ":    ", Order: "lm"},
+	{MidDirect: "+--", MidIndirect: ":  ", Order: "m"},
+	{LastDirect: "`--", LastIndirect: ".....", Order: "l"},
+	{LastDirect: "`--", LastIndirect: "..", MidDirect: "+--", MidIndirect: ":    ", Order: "xyml"},
+	{LastDirect: "`--", LastIndirect: "", MidDirect: "", MidIndirect: ":", Order: "lym"},
+	{LastDirect: "", LastIndirect: "", MidDirect: "", MidIndirect: "", Order: "l"},
+	{LastDirect: "", LastIndirect: "", MidDirect: "", MidIndirect: "", Order: "m"},
+}
+
 var c01Spellings = []enum.Spelling{
 	{Unit: "  ", Bullets: []byte("-")},
 	{Unit: "\t", Bullets: []byte("*")},
@@ -93,6 +106,11 @@ func init() {
 								continue
 							}
 							c01One(c, d, names, sp, fm)
+						}
+					}
+					if n <= 6 {
+						for _, fm := range fmtOrderTuples {
+							c01One(c, d, names, c01Spellings[0], fm)
 						}
 					}
 				})
@@ -226,6 +244,11 @@ func init() {
 								continue
 							}
 							c01One(c, d, names, sp, fm)
+						}
+					}
+					if n <= 6 {
+						for _, fm := range fmtOrderTuples {
+							c01One(c, d, names, c01Spellings[0], fm)
 						}
 					}
 				})
